@@ -67,7 +67,7 @@ PROPS['C01'] = dict(
 )
 PROPS['C02'] = dict(
   level='proof',
-  verus=[dict(unit='ops', min_functions=8), dict(unit='captures', min_functions=3), dict(unit='resolverd', min_functions=1), dict(unit='catchd', min_functions=1), dict(unit='limitsc', min_functions=2), dict(unit='resolvevar', min_functions=9)],
+  verus=[dict(unit='ops', min_functions=8), dict(unit='captures', min_functions=3), dict(unit='resolverd', min_functions=1), dict(unit='catchd', min_functions=1), dict(unit='limitsc', min_functions=2), dict(unit='resolvevar', min_functions=9), dict(unit='varcomp', min_functions=5)],
   explanation='the VM half only: the box / capture handlers and op_closure; the resolver and compiler half of the capture protocol is outside reach',
   not_decided=['which variables the resolver marks as captured, which CaptureIndex operands the compiler emits (resolve_capture / add_capture), fresh variables per loop iteration / call as a COMPILER property (EmptyBox / Box placement), name resolution (innermost declaration)',
                'A-shape preconditions of the handlers: a Local operand names a frame slot that holds a box, an Enclosing operand an existing capture; A-enc: the capture operand decodes to what the encoder wrote'],
